@@ -451,8 +451,8 @@ func varintClass(v uint64) string {
 	}
 }
 
-var varintValues = []uint64{0, 1, 2, 3, 4, 5, 63, 64, 65, 10000, 10001, 65535, 65536, 65537, 1<<31 - 1, 1 << 31, 1<<32 - 1, 1 << 32, 1<<63 - 1, 1 << 63, 1<<64 - 1}
-var varintValuesShort = []uint64{0, 1, 2, 3, 5, 64, 10001, 1 << 31, 1<<32 - 1, 1 << 63, 1<<64 - 1}
+var varintValues = []uint64{0, 1, 2, 3, 4, 5, 63, 64, 65, 10000, 10001, 65535, 65536, 65537, 1<<31 - 1, 1 << 31, 1<<32 - 1, 1 << 32, 1<<63 - 1, 1 << 63, 1<<64 - 2, 1<<64 - 1}
+var varintValuesShort = []uint64{0, 1, 2, 3, 5, 64, 10001, 1 << 31, 1<<32 - 1, 1 << 63, 1<<64 - 2, 1<<64 - 1}
 
 func patternBytes(n int, seed byte) []byte {
 	b := make([]byte, n)
